@@ -23,6 +23,6 @@ timeout 1200 $RUN >/tmp/confirm_a.log 2>&1; A=$?
 git apply $D/patch.diff || { echo "PATCH DOES NOT APPLY"; exit 2; }
 T=$(timeout 2400 cargo test --workspace --no-fail-fast --offline 2>&1 | grep -E "^test result" | tr '\n' ' ')
 timeout 1200 $RUN >/tmp/confirm_b.log 2>&1; B=$?
-echo "demo without change: exit $A ; tests with change: $T ; demo with change: exit $B"
+echo "demo without change: exit $A ; tests with change: $T ; demo with change: exit $B" | tee $D/confirm.txt
 tail -3 /tmp/confirm_b.log
 cd /; git -C /repo worktree remove --force /tmp/confirm
